@@ -61,11 +61,17 @@ RANGE = {'UnitSquare': 1.0, 'LShape': 2.0, 'Circle': 2.0, 'PiSquare': np.pi}
 
 
 def gen_residual(rng, orders, curve):
-    d = (min(orders) - 1) // 2
+    # exactness range per direction: t meets the L2 rule, the outer rule
+    # and the time seminorm rule; x_hat meets the L2 rule, the outer rule
+    # and the space seminorm rule (N_poly = (N_l2, N_outer, N_time, N_space));
+    # with four equal orders both are (N - 1) // 2 as before
+    d_t = (min(orders[0], orders[1], orders[2]) - 1) // 2
+    d_x = (min(orders[0], orders[1], orders[3]) - 1) // 2
+    d = d_t
     fam = rng.choice(['poly', 'poly', 'embedded', 'embedded',
                       'poly_t_embedded'])
     if fam == 'poly':
-        dt, dx = rng.randint(0, d), rng.randint(0, d)
+        dt, dx = rng.randint(0, d_t), rng.randint(0, d_x)
         coef = [[round(rng.uniform(-1, 1), 3) for _ in range(dx + 1)]
                 for _ in range(dt + 1)]
         coef[dt][dx] = coef[dt][dx] or 0.5
